@@ -337,7 +337,8 @@ typedef unsigned long uintptr_t;
     }
 #define CHK_DESTW_OVR(func, destsz, destbos)                                   \
     if (unlikely(destsz != destbos)) {                                         \
-        if (unlikely(destsz > destbos)) {                                      \
+        if (unlikely(destsz > destbos ||                                       \
+                     destsz / sizeof(wchar_t) != dmax)) {                      \
             if (dmax > RSIZE_MAX_WSTR) {                                       \
                 invoke_safe_str_constraint_handler(func ": dmax exceeds max",  \
                                                    (void *)dest, ESLEMAX);     \
@@ -354,7 +355,8 @@ typedef unsigned long uintptr_t;
     }
 #define CHK_DESTW_OVR_CLEAR(func, destsz, destbos)                             \
     if (unlikely(destsz != destbos)) {                                         \
-        if (unlikely(destsz > destbos)) {                                      \
+        if (unlikely(destsz > destbos ||                                       \
+                     destsz / sizeof(wchar_t) != dmax)) {                      \
             if (dmax > RSIZE_MAX_WSTR) {                                       \
                 handle_werror(dest, destbos / sizeof(wchar_t),                 \
                               func ": dmax exceeds max", ESLEMAX);             \
@@ -424,7 +426,7 @@ typedef unsigned long uintptr_t;
         }                                                                      \
     }
 #define CHK_DESTW_OVR(func, destsz, destbos)                                   \
-    if (unlikely(destsz > destbos)) {                                          \
+    if (unlikely(destsz > destbos || destsz / sizeof(wchar_t) != dmax)) {      \
         if (dmax > RSIZE_MAX_WSTR) {                                           \
             invoke_safe_str_constraint_handler(func ": dmax exceeds max",      \
                                                (void *)dest, ESLEMAX);         \
@@ -436,7 +438,7 @@ typedef unsigned long uintptr_t;
         }                                                                      \
     }
 #define CHK_DESTW_OVR_CLEAR(func, destsz, destbos)                             \
-    if (unlikely(destsz > destbos)) {                                          \
+    if (unlikely(destsz > destbos || destsz / sizeof(wchar_t) != dmax)) {      \
         if (dmax > RSIZE_MAX_WSTR) {                                           \
             handle_werror(dest, destbos / sizeof(wchar_t),                     \
                           func ": dmax exceeds max", ESLEMAX);                 \
